@@ -6,10 +6,8 @@ package x25519
 // u-coordinate (1+y)/(1-y) of the Ed25519 base point (= 9), little-endian.
 //
 // Coverage of package-level vars/consts of x25519.go:
-//   Basepoint (exported slice), basePoint (backing array) -> checked, including that Basepoint
-//   aliases basePoint (X25519 compares &point[0] with &Basepoint[0] to take the fixed-base path);
-//   ScalarSize, PointSize, PrivateKeySize, PublicKeySize, SharedSecretSize -> checked (trivial sizes);
-//   seedSize: key-derivation parameter without a mathematical definition, not checked.
+//   Basepoint (exported slice, set by init), basePoint (backing array) -> both checked by value;
+//   ScalarSize, PointSize, PrivateKeySize, PublicKeySize, SharedSecretSize, seedSize -> checked (trivial sizes, all 32).
 
 import (
 	"bytes"
@@ -31,16 +29,13 @@ func c20Check(c c20Case) h.Result {
 		if !bytes.Equal(Basepoint, want) {
 			r.Fail("x25519.Basepoint:wrong-value", "got %x want %x", Basepoint, want)
 		}
-		if len(Basepoint) != 32 || &Basepoint[0] != &basePoint[0] {
-			r.Fail("x25519.Basepoint:does-not-alias-basePoint", "")
-		}
 	case "basePoint":
 		r.NT(true)
 		if !bytes.Equal(basePoint[:], want) {
 			r.Fail("x25519.basePoint:wrong-value", "got %x want %x", basePoint[:], want)
 		}
 	case "sizes":
-		if ScalarSize != 32 || PointSize != 32 || PrivateKeySize != 32 || PublicKeySize != 32 || SharedSecretSize != 32 {
+		if ScalarSize != 32 || PointSize != 32 || PrivateKeySize != 32 || PublicKeySize != 32 || SharedSecretSize != 32 || seedSize != 32 {
 			r.Fail("x25519.sizes:wrong-value", "")
 		}
 	default:
